@@ -184,9 +184,50 @@ def guard_in_handler(ctx, inst, fn, want_a, want_b, what, sinks=None):
     return None
 
 
+INLINE_ARMS = {}       # (contract, variant) -> (dispatcher fn, region blocks guarded by the arm's caller check)
+
+
+def infer_policy_inline(ctx, contract, variant):
+    """A new variant handled *inside* its dispatch arm (no handler function): the same acceptance as for a handler — a
+    comparison of the caller with the contract's stored principal inside the arm, its rejecting edge only errs, its passing
+    edge dominates every effect and every success exit of the arm."""
+    P = ctx.P
+    try:
+        ex, d = roles.dispatch_arms(P, contract)
+    except AnchorMissing:
+        return None
+    if variant not in d or d[variant] is None:
+        return None
+    region = common.region_of_edge(ex.body, d[variant])
+    info = param(ex, INFO_TY)
+    if contract == "factory":
+        a, b, pol = {"canon(%s)" % P_(ex, info, ".sender")}, {"load(%s).owner" % ctx.N.FACTORY_CONFIG}, "owner"
+    elif contract == "pair":
+        a, b, pol = {P_(ex, info, ".sender")}, {"load(%s).halo_factory" % ctx.N.PAIR_CONFIG}, "factory-only"
+    else:
+        a, b, pol = {P_(ex, param(ex, ENV_TY), ".contract.address")}, {P_(ex, info, ".sender")}, "self-only"
+    sinks = [(sb, d_) for (sb, d_) in roles.sink_blocks(P, ex) if sb in region]
+    oks = [x for x in common.ok_exit_blocks(P, ex) if x[0] in region]
+    for g, pe, fe in find_eq_guard(ctx, ex, a, b):
+        gb = getattr(g, "b", None)
+        if gb is None or gb not in region:
+            continue
+        if not all(ex.body.edge_dominates(pe, sb) for sb, _ in sinks) or not all(ex.body.edge_dominates(pe, x[0]) for x in oks) or not oks:
+            continue
+        if not common.fail_edge_only_errors(P, ex, fe, [sb for sb, _ in sinks])[0]:
+            continue
+        INLINE_ARMS[(contract, variant)] = (ex, {bb for bb in region if ex.body.edge_dominates(pe, bb)})
+        return pol
+    return None
+
+
 def infer_policy(ctx, contract, variant):
     P = ctx.P
     try:
+        try:
+            roles.handler_of(P, contract, variant)
+        except AnchorMissing:
+            return infer_policy_inline(ctx, contract, variant)
         h = roles.handler_of(P, contract, variant)
         fn = h[3]
         info = param(fn, INFO_TY)
@@ -221,6 +262,7 @@ def run(ctx):
     P = ctx.P
     POLICY_RUN.clear()
     POLICY_RUN.update(POLICY)
+    INLINE_ARMS.clear()
     # ---- R0 dispatch completeness ------------------------------------------------------
     r0 = ctx.inst("C14.R0", "every ExecuteMsg / hook variant has a dispatch arm and a caller policy", floor=15)
     handlers = {}
@@ -244,6 +286,9 @@ def run(ctx):
                 POLICY_RUN[(contract, variant)] = pol
             if variant not in d:
                 r0.fail("C14.R0:no-arm:%s::%s" % (contract, variant), ex.path, ex.span, "variant has no dispatch arm")
+                continue
+            if (contract, variant) in INLINE_ARMS and POLICY.get((contract, variant)) is None:
+                r0.site("%s::%s handled inside its dispatch arm behind the caller check [%s]" % (contract, variant, pol))
                 continue
             try:
                 h = roles.handler_of(P, contract, variant)
@@ -350,6 +395,12 @@ def run(ctx):
                 except AnchorMissing:
                     pi = None
                 if pi is None or fn.path != pi.path:
+                    keeps = len(v[4]) > 2 and set(ctx.roots(v[4][2], (("f", "halo_factory"),))) == {"load(%s).halo_factory" % ctx.N.PAIR_CONFIG}
+                    guarded_ = any(ex_.path == fn.path and b in blocks_ for (k_, (ex_, blocks_)) in INLINE_ARMS.items() if k_[0] == "pair") or \
+                        any(k_[0] == "pair" and h_[3].path == fn.path and POLICY_RUN.get(k_) == "factory-only" for k_, h_ in handlers.items())
+                    if keeps and guarded_:
+                        r6.site("%s: a factory-only message rewrites the pair CONFIG keeping the stored factory" % where)
+                        continue
                     r6.fail("C14.R6:foreign-writer:%s" % fn.path, fn.path, where, "pair CONFIG (factory address) written outside instantiate")
                     continue
                 info = param(fn, INFO_TY)
@@ -440,6 +491,9 @@ def run(ctx):
                 root_fn = P.fn(fn.parent) or fn
             if root_fn.path in allowed_fns or root_fn.path in guarded:
                 r11.site("%s %s %s in %s" % (where, op, item, root_fn.path))
+                continue
+            if fn.kind != "closure" and any(ex_.path == fn.path and b in blocks_ for (ex_, blocks_) in INLINE_ARMS.values()):
+                r11.site("%s %s %s inside a dispatch arm behind its caller check" % (where, op, item))
                 continue
             callers = [c for c, cb in P.callers(root_fn.path) if "::tests::" not in c.path]
             if callers and all((c.path in guarded or c.path in allowed_fns) for c in callers):
